@@ -142,8 +142,8 @@ def run_tree_cases(o: Outcome, cases, tag):
 def obs_record(a):
     if a["kind"] == "val":
         n, d, close = pfcommon.small_fraction(a["frac"])
-        return {"kind": "val", "n": n, "d": d, "close": close}
-    return {"kind": a["kind"], "n": 0, "d": 1, "close": False}
+        return {"kind": "val", "n": n, "d": d, "close": close, "syntax": False}
+    return {"kind": a["kind"], "n": 0, "d": 1, "close": False, "syntax": "error near" in a["txt"]}
 
 
 def validate_expr_trace(o: Outcome | None, events, cfg="Trace_Expr.cfg", name="Trace_Expr"):
@@ -158,7 +158,7 @@ def validate_expr_trace(o: Outcome | None, events, cfg="Trace_Expr.cfg", name="T
     v = r.tagged("VERDICT")
     if not v or v[0]["consumed"] != len(evs):
         raise common.TLCError("Trace_Expr: no verdict / trace not consumed")
-    return v[0]["bad"], v[0]["drift"]
+    return v[0]["bad"], v[0]["drift"], v[0]["excerr"]
 
 
 LITS = ["0", "1", "2", "3", "4", "5", "7", "10", "0.5", "1.5", "2.5", "0.25", "0.75", ".5", "2."]
@@ -222,7 +222,7 @@ def part_expr(o: Outcome, thorough: bool):
     if scases:
         o.sample({"sampled_expr": " ".join(max(scases, key=lambda c: len(c["min"]))["min"][:60])})
     allev = sevents + events[: (40000 if thorough else 4000)]
-    bad, drift = validate_expr_trace(o, allev)
+    bad, drift, excerr = validate_expr_trace(o, allev)
     o.traces += len(allev)
     seen = 0
     for b in bad:
@@ -234,7 +234,8 @@ def part_expr(o: Outcome, thorough: bool):
             cls="V-" + _expr_cls(toks, a),
         )
         seen += 1
-    o.extra["trace_expr"] = {"events": len(allev), "rejected": len(bad), "drift": len(drift)}
+    o.extra["trace_expr"] = {"events": len(allev), "rejected": len(bad), "drift": len(drift),
+                             "exception_where_error_demanded(see C05)": len(excerr)}
 
 
 # ---------------------------------------------------------------------------
@@ -347,7 +348,7 @@ def rand_call(rng):
         return fn, [S(s), I(rng.randint(-2, 20)), S(rand_word(rng, 1, 3, inner))]
     if fn == "urlencode":
         t = rand_word(rng, 0, 8, list("ab /:&=?%+"))
-        return fn, [S(t), S(rng.choice(["QUERY", "WIKI", "PATH"]))]
+        return fn, [S(t), {"k": "s", "s": [rng.choice(["QUERY", "WIKI", "PATH"])], "i": 0}]
     if fn == "#titleparts":
         t = "A" + rand_word(rng, 0, 8, list("bcd//"))
         return fn, [S(t), I(rng.randint(-4, 4)), I(rng.randint(-4, 4))]
@@ -360,6 +361,8 @@ INT_FNS = {"#len", "#pos", "#rpos"}
 def out_record(fn, out):
     if fn in INT_FNS and re.fullmatch(r"-?\d+", out):
         return {"k": "i", "s": [], "i": int(out)}
+    if fn == "urlencode":      # one atom per percent-escape
+        return {"k": "s", "s": atoms_of(re.findall(r"%[0-9A-Fa-f]{2}|.", out, re.S)), "i": 0}
     return {"k": "s", "s": atoms_of(out), "i": 0}
 
 
@@ -586,8 +589,20 @@ def validate_formatnum_trace(o, shapes, events):
 
 # ---------------------------------------------------------------------------
 
+def extra_known(o: Outcome, pid: str | None = None):
+    """VERIF_EXTRA_KNOWN=<json file>: findings not (yet) in known_findings.json, for
+    demonstrating the verdict once the recommended entries are added."""
+    import os
+    p = os.environ.get("VERIF_EXTRA_KNOWN")
+    if p:
+        for e in json.loads(Path(p).read_text())["findings"]:
+            if e["property"] == (pid or o.pid) and e["status"] == "finding":
+                o.known[e["deviation"]] = e
+
+
 def run(tier: str) -> int:
     o = Outcome(PID, tier)
+    extra_known(o)
     thorough = tier == "thorough"
     o.rule = (
         "#expr: every tree of the families (operator pairs x 2 shapes, unary/binary interactions, prefix chains) over the "
@@ -639,11 +654,11 @@ def selftest() -> int:
              ["not", "0", "+", "1"], ["7", "-", "2", "-", "1"], ["1", "/", "4"], ["-", "2", "^", "2"]]
     with pfcommon.Ctx() as c:
         ev = [(t, pfcommon.abstract_expr_output(*c.run(expr_text(t, "spaced")))) for t in exprs]
-    bad0, _ = validate_expr_trace(None, ev)
+    bad0, _, _ = validate_expr_trace(None, ev)
     from fractions import Fraction
     ev2 = list(ev)
     ev2[2] = (ev2[2][0], {"kind": "val", "txt": "512", "frac": Fraction(512)})   # 2^3^2 read right-associatively
-    bad1, _ = validate_expr_trace(None, ev2)
+    bad1, _, _ = validate_expr_trace(None, ev2)
     print(f"Trace_Expr: recorded trace rejected={len(bad0)}; with 2^3^2 corrupted to 512: rejected={len(bad1)} {bad1[:1]}")
     ok &= (not bad0) and len(bad1) == 1 and bad1[0]["i"] == 3
     # 2. Trace_StrFns
